@@ -137,20 +137,27 @@ func formatAll(p *migrate.Plan, out map[string][]byte) error {
 // graphs builds FRESH current/desired graphs of an input through the sql/schema DSL. Nothing is
 // shared with any other call.
 func graphs(in *Input) (fromS, toS *schema.Schema, fromR, toR *schema.Realm) {
-	if in.RawFrom != "" || in.RawTo != "" {
-		// raw documents: evaluated (errors are checked by rawErr before), the missing side is an empty realm
+	if in.hasSource() {
+		// HCL sources (one document or several files): evaluated (errors are checked by rawErr
+		// before); the missing side is empty
 		fromR, toR = schema.NewRealm(), schema.NewRealm()
-		if in.RawFrom != "" {
-			if r, err := apis[in.Dialect].evalDoc(in.RawFrom); err == nil {
-				fromR = r
-			}
+		if r, err := in.evalSide(0); err == nil && r != nil {
+			fromR = r
 		}
-		if in.RawTo != "" {
-			if r, err := apis[in.Dialect].evalDoc(in.RawTo); err == nil {
-				toR = r
-			}
+		if r, err := in.evalSide(1); err == nil && r != nil {
+			toR = r
 		}
-		return nil, nil, fromR, toR
+		if in.Realm {
+			return nil, nil, fromR, toR
+		}
+		name := schemaOf(in.Dialect)
+		pick := func(r *schema.Realm) *schema.Schema {
+			if sc, ok := r.Schema(name); ok {
+				return sc
+			}
+			return schema.New(name)
+		}
+		return pick(fromR), pick(toR), nil, nil
 	}
 	side := func(m, m2 *dmodel.Model, other *dmodel.Model) (*schema.Schema, *schema.Realm) {
 		var s *schema.Schema
@@ -320,13 +327,34 @@ func stmtIdents(p *migrate.Plan) []string {
 }
 
 // diffPlan runs the differ and the planner of the dialect on fresh graphs of the input.
-// rawErr evaluates the raw documents of an input and returns the evaluation error, if any.
+// hasSource reports whether a side of the input is given as HCL source text.
+func (in *Input) hasSource() bool {
+	return in.RawFrom != "" || in.RawTo != "" || in.FilesFrom != nil || in.FilesTo != nil
+}
+
+// evalSide evaluates the HCL source of the current (0) or desired (1) side with the dialect's real
+// evaluator: a single document through EvalHCLBytes, several files through ONE hclparse.Parser handed
+// to EvalHCL (what the CLI does for a schema directory / several file:// URLs). nil, nil: no source.
+func (in *Input) evalSide(side int) (*schema.Realm, error) {
+	a := apis[in.Dialect]
+	doc, files := in.RawFrom, in.FilesFrom
+	if side == 1 {
+		doc, files = in.RawTo, in.FilesTo
+	}
+	switch {
+	case files != nil:
+		return a.evalFiles(files)
+	case doc != "":
+		return a.evalDoc(doc)
+	}
+	return nil, nil
+}
+
+// rawErr evaluates the HCL sources of an input and returns the evaluation error, if any.
 func rawErr(in *Input) error {
-	for _, doc := range []string{in.RawFrom, in.RawTo} {
-		if doc != "" {
-			if _, err := apis[in.Dialect].evalDoc(doc); err != nil {
-				return err
-			}
+	for side := 0; side < 2; side++ {
+		if _, err := in.evalSide(side); err != nil {
+			return err
 		}
 	}
 	return nil
@@ -371,6 +399,14 @@ func Outputs(in *Input) map[string][]byte {
 		// the document is rejected: that (and how) is the output
 		out["error.eval"] = []byte(err.Error())
 		return out
+	}
+	if in.FilesTo != nil || in.FilesFrom != nil {
+		// the ORDER in which the evaluator lists schemas, tables and objects
+		for side, k := range []string{"eval.order.from", "eval.order.to"} {
+			if r, _ := in.evalSide(side); r != nil {
+				out[k] = []byte(orderOf(r))
+			}
+		}
 	}
 	changes, plan, err := diffPlan(in)
 	if changes != nil {
@@ -440,6 +476,21 @@ func Outputs(in *Input) map[string][]byte {
 		}
 	}
 	return out
+}
+
+// orderOf lists the schemas, objects and tables of a realm in the order the evaluator produced them.
+func orderOf(r *schema.Realm) string {
+	var b strings.Builder
+	for _, s := range r.Schemas {
+		fmt.Fprintf(&b, "schema %s\n", s.Name)
+		for _, o := range s.Objects {
+			fmt.Fprintf(&b, "  object %T %s\n", o, objName(o))
+		}
+		for _, t := range s.Tables {
+			fmt.Fprintf(&b, "  table %s\n", t.Name)
+		}
+	}
+	return b.String()
 }
 
 // kinds returns the sorted keys.
